@@ -28,6 +28,12 @@ fn valid(v: u16) -> bool {
 
 #[inline]
 fn check_pair(st: &mut St<X>, ranks: &[HandRank], keys: Option<&[u32]>, a: u16, b: u16) {
+    check_pair_ctx(st, ranks, keys, a, b, None)
+}
+
+/// `ctx` = (predecessor, which of a/b was converted right after it): recorded so that the witness can be replayed
+#[inline]
+fn check_pair_ctx(st: &mut St<X>, ranks: &[HandRank], keys: Option<&[u32]>, a: u16, b: u16, ctx: Option<(u16, u16)>) {
     let x = &ranks[a as usize];
     let y = &ranks[b as usize];
     let c = x.cmp(y);
@@ -38,7 +44,11 @@ fn check_pair(st: &mut St<X>, ranks: &[HandRank], keys: Option<&[u32]>, a: u16, 
         st.x.equal_results += 1;
     }
     let bad = |st: &mut St<X>, clause: &str, entry: &str, exp: String, obs: String| {
-        st.rep.violation(clause, entry, Input::U16s(vec![a, b]), exp, obs);
+        match ctx {
+            // [predecessor, value converted right after it, a, b]
+            Some((pred, stale)) => st.rep.violation(clause, &format!("{} (with from({}) converted right after from({}))", entry, stale, pred), Input::U16s(vec![pred, stale, a, b]), exp, obs),
+            None => st.rep.violation(clause, entry, Input::U16s(vec![a, b]), exp, obs),
+        }
     };
     let rc = y.cmp(x);
     if c != rc.reverse() {
@@ -185,8 +195,8 @@ pub fn run(ctx: &Ctx) -> Rep {
                         let mut probe = ranks.clone();
                         probe[a as usize] = x;
                         for &c in &vals {
-                            check_pair(st, &probe, None, a, c);
-                            check_pair(st, &probe, None, c, a);
+                            check_pair_ctx(st, &probe, None, a, c, Some((b, a)));
+                            check_pair_ctx(st, &probe, None, c, a, Some((b, a)));
                         }
                     }
                 }
@@ -253,6 +263,18 @@ pub fn replay(_ctx: &Ctx, inp: &Input, clause: &str) -> Rep {
     let mut rep = Rep::new();
     let mut st = St { rep: Rep::new(), x: mk(), cur: [0; 8], cur_len: 0, cur_what: "" };
     match inp {
+        Input::U16s(v) if v.len() == 4 => {
+            // [predecessor, stale-prone value, a, b]: rebuild the context, then the pair
+            let mut ranks: Vec<HandRank> = (0..=65535u32).map(|v| HandRank::from(v as u16)).collect();
+            let r = drive::guard(|| {
+                let _ = HandRank::from(v[0]);
+                ranks[v[1] as usize] = HandRank::from(v[1]);
+                check_pair_ctx(&mut st, &ranks, None, v[2], v[3], Some((v[0], v[1])));
+            });
+            if let Err(msg) = r {
+                st.rep.violation("panic", "HandRank::cmp", inp.clone(), "normal return".into(), msg);
+            }
+        }
         Input::U16s(v) if v.len() == 2 => {
             let ranks: Vec<HandRank> = (0..=65535u32).map(|v| HandRank::from(v as u16)).collect();
             let (a, b) = (v[0], v[1]);
